@@ -20,6 +20,7 @@ import pandas as pd
 
 from common import coq_eval, frac, close, qlit, TOL_ARITH, TOL_FIT
 import est_common as ec
+import datagen
 
 PROP_FILE = 'theories/Properties/C12.v'
 MODEL_FILES = ['theories/Model/Icg.v', 'theories/Model/Survival.v']
@@ -728,9 +729,49 @@ def check_monotone(fails, r, n, desc, payload):
 
 
 # ================================================================================================ driver
+def interleaved_part(ctx, fails):
+    """several estimators alive at once (one per cohort / subgroup / resample): all are specified first, then each is fitted.
+    Every one must return what it returns when it is the only estimator in the process."""
+    import zepid.causal.gformula.TimeVary as TV
+    for rep in range(2 if ctx.quick else 10):
+        K = 1 + rep % 3
+        plan = [1] * K if rep % 2 == 0 else [0] * K
+        dfs = []
+        for j in range(2 + rep % 2):
+            rows = [[tuple(x) for x in r] for r in gen_wide(ctx.rng, K, 'seeded')]
+            dfs.append(wide_frame(rows, K, 'kept', 'range', ctx.rng))
+        alone = [run_icg(d, K, plan) for d in dfs]
+        objs, together = [], []
+        try:
+            with warnings.catch_warnings():
+                warnings.simplefilter('ignore')
+                for d in dfs:
+                    g = TV.IterativeCondGFormula(d, exposures=['A%d' % k for k in range(K)], outcomes=['Y%d' % k for k in range(K)])
+                    g.outcome_model(models=models_for(K), print_results=False)
+                    objs.append(g)
+                for g in objs:
+                    g.fit(treatments=plan)
+                    together.append(float(g.marginal_outcome))
+        except Exception as e:   # noqa
+            fails.append((len(dfs[0]), 'IterativeCondGFormula.interleaved.raises', 'specifying %d estimators and then fitting them raised %s: %s'
+                          % (len(dfs), type(e).__name__, str(e)[:100]), {'part': 'interleaved', 'K': K}))
+            continue
+        ctx.evaluations += 1
+        ctx.programs += len(dfs)
+        ctx.count('interleaved estimators: %d objects, K=%d' % (len(dfs), K))
+        ctx.nontriv(['interleaved', K, plan, [d['Y0'].tolist()[:6] for d in dfs]])
+        for j, (a, t) in enumerate(zip(alone, together)):
+            ctx.disagreements_checked += 1
+            if a.get('ok') and not close(t, a['value'], TOL_FIT):
+                fails.append((len(dfs[j]), 'IterativeCondGFormula.interleaved', 'estimator %d of %d specified together and then fitted returns %r; the same '
+                              'data and plan %r fitted alone give %r' % (j + 1, len(dfs), t, plan, a['value']),
+                              {'part': 'interleaved', 'K': K, 'plan': plan, 'frames': [datagen.pack_frame(d) for d in dfs]}))
+
+
 def run(ctx):
     fails = []
     icg_part(ctx, fails)
+    interleaved_part(ctx, fails)
     surv_part(ctx, fails)
     report(ctx, fails)
 
@@ -752,7 +793,10 @@ def replay(ctx, payload):
         icg_part(ctx, fails, [dict(payload['dataset'])])
     elif payload and payload.get('part') == 'surv':
         surv_part(ctx, fails, [dict(payload['case'])])
+    elif payload and payload.get('part') == 'interleaved':
+        interleaved_part(ctx, fails)
     else:
         icg_part(ctx, fails)
+        interleaved_part(ctx, fails)
         surv_part(ctx, fails)
     report(ctx, fails)
